@@ -163,6 +163,9 @@ func runProp(t *testing.T, ps *propSpec) {
 		return
 	}
 	for _, f := range r.RegressFiles(".json") {
+		if raw, _ := os.ReadFile(f); !strings.Contains(string(raw), "\"deny_client\"") {
+			continue // another stage's regress input
+		}
 		var rf replayFile
 		if err := vkit.LoadJSON(f, &rf); err != nil || rf.Script == nil {
 			t.Fatalf("bad regress file %s: %v", f, err)
